@@ -23,7 +23,7 @@ MUTANTS = [
      [(M + 'compute_far_field', "                    gain [:, a_i, :] += np.sum \\\n                        (kv2g.T * pv.dirvec.T * bs, axis = (2, 3))",
        "                    if k > 0:\n                        gain [:, a_i, :] += np.sum \\\n                            (kv2g.T * pv.dirvec.T * bs, axis = (2, 3))")], ['accumulate']),
     ('row filter in dB table',
-     [(F + 'db_as_mininec', "            r.append \\\n                ( ('%s     ' * 4 + '%s')", "            if t < -900:\n                continue\n            r.append \\\n                ( ('%s     ' * 4 + '%s')")], ['one-row']),
+     [(F + 'db_as_mininec', "            r.append \\\n                ( ('%s     ' * 4 + '%s')", "            if t < -900:\n                continue\n            r.append \\\n                ( ('%s     ' * 4 + '%s')")], ['rows-per-entry']),
     ('stack order swapped', [(M + 'compute_far_field', "np.array ([t1.T, t2.T, t3.T]).T", "np.array ([t1.T, t3.T, t2.T]).T")], ['total']),
     ('default power ignores request', [(M + 'compute_far_field', "self.ff_power = pwr or self.power", "self.ff_power = self.power")], ['ff_power-default']),
 ]
